@@ -689,6 +689,7 @@ pub fn c10(tier: Tier) -> PropSpec {
                 c10_check,
             ),
             // the observation points named in the property: the CLI with --lx / --an (all three modes) ...
+            crate::props::cli::padded_cli_part("cli-padded", tier.pick(90, 900)),
             crate::props::cli::sem_cli_part("cli-sort", &[crate::props::cli::Flag::Grd, crate::props::cli::Flag::Com, crate::props::cli::Flag::Stm], tier.pick(150, 1500)),
             // ... and sorting options combined with --export / --import
             Part::with_shrink(
